@@ -107,6 +107,19 @@ func specStep(s specState, e cEvent) (specState, bool) {
 		n := s.clone()
 		delete(n, e.op.g)
 		return n, true
+	case "delone": // DeleteById of document 0 of batch g: an absent id is fine
+		if e.res.err {
+			return s, true
+		}
+		if _, has := s[e.op.g][0]; !has {
+			return s, true
+		}
+		n := s.clone()
+		delete(n[e.op.g], 0)
+		if len(n[e.op.g]) == 0 {
+			delete(n, e.op.g)
+		}
+		return n, true
 	case "like":
 		return s, true
 	case "read":
@@ -201,7 +214,11 @@ func runConcStream(seed int64, n int, out, backendSpec string) *RunReport {
 					case 2:
 						plans[c] = append(plans[c], cOp{kind: "set", g: 1 + g.Intn(int(nextG)+1), v: 1 + g.Intn(9)})
 					case 3:
-						plans[c] = append(plans[c], cOp{kind: "del", g: 1 + g.Intn(int(nextG)+1)})
+						if g.Bool() {
+							plans[c] = append(plans[c], cOp{kind: "delone", g: 1 + g.Intn(int(nextG)+1)})
+						} else {
+							plans[c] = append(plans[c], cOp{kind: "del", g: 1 + g.Intn(int(nextG)+1)})
+						}
 					case 4:
 						plans[c] = append(plans[c], cOp{kind: "like", g: c*10 + j})
 					default:
@@ -229,11 +246,13 @@ func runConcStream(seed int64, n int, out, backendSpec string) *RunReport {
 						case "insert":
 							docs := make([]*d.Document, op.n)
 							for k := range docs {
-								docs[k] = d.NewDocumentOf(map[string]interface{}{"g": int64(op.g), "k": int64(k), "v": int64(0), "tag": fmt.Sprintf("t%d", op.g)})
+								docs[k] = d.NewDocumentOf(map[string]interface{}{"_id": concId(op.g, k), "g": int64(op.g), "k": int64(k), "v": int64(0), "tag": fmt.Sprintf("t%d", op.g)})
 							}
 							ev.res.err = db.Insert("c", docs...) != nil
 						case "set":
 							ev.res.err = db.Update(query.NewQuery("c").Where(query.Field("g").Eq(op.g)), map[string]interface{}{"v": int64(op.v)}) != nil
+						case "delone":
+							ev.res.err = db.DeleteById("c", concId(op.g, 0)) != nil
 						case "del":
 							ev.res.err = db.Delete(query.NewQuery("c").Where(query.Field("g").Eq(op.g))) != nil
 						case "count":
@@ -292,8 +311,14 @@ func runConcStream(seed int64, n int, out, backendSpec string) *RunReport {
 							counts[strings.Split(p, "/")[0]]++
 						}
 					}
+					touched := map[int]bool{} // batches a point delete was aimed at: their size legitimately varies
+					for _, e3 := range events {
+						if e3.op.kind == "delone" {
+							touched[e3.op.g] = true
+						}
+					}
 					for _, e2 := range events {
-						if e2.op.kind == "insert" && !e2.res.err {
+						if e2.op.kind == "insert" && !e2.res.err && !touched[e2.op.g] {
 							if c := counts[fmt.Sprint(e2.op.g)]; c != 0 && c != e2.op.n {
 								f.failf("a reader observed %d of the %d documents of one insert batch on %s", c, e2.op.n, be)
 							}
@@ -336,3 +361,5 @@ func runConcStream(seed int64, n int, out, backendSpec string) *RunReport {
 		OracleFails:  f.fails, Samples: samples,
 		Distribution: map[string]interface{}{"histories": n, "backends": backendsOf(backendSpec), "stats": stats}}
 }
+
+func concId(g, k int) string { return fmt.Sprintf("%08x-0000-4000-8000-%012x", g, k) }
